@@ -19,7 +19,8 @@ RULE = ('build: 4 message classes x drawn subset of optional fields x no-reply/n
         'each decoded strictly; reject_affixed: every message class x name-carrying argument x valid name with one foreign '
         'character (newline, CR, NUL, blank, separator, non-ASCII) in front or behind, exhaustive. Non-trivial = (>=1 optional field and a body) or a non-default flag or big-endian / '
         'permuted / unknown-field input; distinct = distinct case JSON. Parse-side inputs also carry what only a foreign encoder '
-        'writes: header fields defined for another message type (PATH on a reply ...), which must come back, and extra flag bits.')
+        'writes: header fields defined for another message type (PATH on a reply ...), which must come back, and extra flag bits. '
+        'reject_same: one string for two name-carrying arguments of a constructor (each judged by its own grammar).')
 ASSUMPTIONS = ['sender is set through a constructor only where one takes it (ErrorMessage)',
                'unknown header field codes must be ignored, not preserved']
 
@@ -375,6 +376,9 @@ SUBCHECKS = [
     Subcheck('reject_affixed', run_reject, classify_reject, enumerate=enum_reject_affixed, shards={'quick': 2, 'thorough': 2},
              exhaustive_note='4 message classes x their name-carrying arguments x 2 valid names x 13 foreign characters '
                              '(newline, CR, NUL, blanks, separators, non-ASCII) x {in front, behind}'),
+    Subcheck('reject_same', c18.run_ctor_same, c18.classify_ctor_same, enumerate=c18.enum_ctor_same, shards={'quick': 1, 'thorough': 1},
+             exhaustive_note='every constructor x every pair of its name-carrying arguments x 14 strings given for BOTH: each '
+                             'argument is judged by its own grammar (interface == destination == a hyphenated bus name ...)'),
     Subcheck('limit128', run_real_limit, lambda c: (True, ['real_2^27_boundary']), enumerate=enum_real_limit,
              shards={'quick': 1, 'thorough': 1},
              exhaustive_note='the two messages of exactly 2^27 and 2^27+1 bytes'),
